@@ -14,7 +14,8 @@ from mc.core import findings as F
 from mc.core import par
 from mc.core.evidence import Report
 from mc.core.translate import translate
-from mc.sandbox.box import Sandbox, namespaces_available
+from mc.lang.jobcfg import parse_output, parse_trees
+from mc.sandbox.box import Sandbox, build_macro, namespaces_available
 
 PROP = "C16"
 F1, F2 = "/data/one.root", "/data/two.root"
@@ -87,10 +88,10 @@ def parse_inv(argv):
     return compile_, run, inp, out, bad
 
 
-def run_history(files, backend, names, fault_at=None, fault=None, srcfault=None):
+def run_history(files, backend, names, fault_at=None, fault=None, srcfault=None, macro_dir=None):
     """Run the invocations `names` in one fresh sandbox; inject `fault` (command index) or `srcfault` in invocation
     number fault_at.  Returns the list of per-invocation observations."""
-    sb = Sandbox(files, backend, filelist=MOUNTED)
+    sb = Sandbox(files, backend, filelist=MOUNTED, macro_dir=macro_dir)
     obs = []
     try:
         for k, nm in enumerate(names):
@@ -132,13 +133,17 @@ def check_invocation(o, built_before, faulted, backend):
         probs.append("-r ran a build tool")
     dest = destination(out, o["isdir"])
     content = o["dest"].get(dest)
-    fresh = content is not None and f"NONCE {o['nonce']}\n" in content
+    # the delivered file must hold the job's tree at its top level (the CMS jobs write it one directory down; the
+    # conversion step moves it up); for "no fresh output after a failure" a tree of this run anywhere in the file counts
+    tree = parse_output(content, directory="-")
+    fresh = tree is not None and tree["nonce"] == o["nonce"]
+    fresh_any = any(t["nonce"] == o["nonce"] for t in parse_trees(content)) or (content is not None and f"NONCE {o['nonce']}\n" in content)
     want_inputs = [inp] if inp is not None else MOUNTED
     if faulted:
         if o["fault_hit"] or faulted == "src":
             if o["rc"] == 0:
                 probs.append("exit status 0 although a step failed")
-            if fresh:
+            if fresh_any:
                 probs.append("a fresh output was left at the destination although a step failed")
         return probs
     # fault-free expectations
@@ -157,12 +162,12 @@ def check_invocation(o, built_before, faulted, backend):
         if not fresh:
             probs.append(f"exit 0 but no output of this run at {dest} (found {content!r})")
         else:
-            got = [l[6:] for l in content.split("\n") if l.startswith("INPUT ")]
+            got = tree["inputs"]
             if got != want_inputs:
                 probs.append(f"job saw inputs {got} instead of {want_inputs}")
     if compile_ and o["rc"] == 0 and not any(t in BUILD_TOOLS for t in tools):
         probs.append("asked to build (no -r) and reported success, but no build step ran in this invocation")
-    if o["rc"] == 0 and not run and fresh:
+    if o["rc"] == 0 and not run and fresh_any:
         probs.append("-c produced an output")
     return probs
 
@@ -178,11 +183,11 @@ def built_after(o, built_before):
 
 
 def explore(args):
-    backend, files, hist, fault_scope = args
+    backend, files, hist, fault_scope, macro_dir = args
     stats = Counter()
     bad = []
     outcomes = set()
-    base = run_history(files, backend, hist)
+    base = run_history(files, backend, hist, macro_dir=macro_dir)
     stats["runs"] += 1
     built = False
     builts = []
@@ -199,7 +204,7 @@ def explore(args):
     for k in targets:
         plans = [("cmd", o) for o in sorted(set(base[k]["occ"]), key=base[k]["occ"].index)] + [("src", s) for s in base[k]["src"]]
         for kind, what in plans:
-            obs = run_history(files, backend, hist, fault_at=k, fault=what if kind == "cmd" else None, srcfault=what if kind == "src" else None)
+            obs = run_history(files, backend, hist, fault_at=k, fault=what if kind == "cmd" else None, srcfault=what if kind == "src" else None, macro_dir=macro_dir)
             stats["runs"] += 1
             stats["fault_runs"] += 1
             o = obs[k]
@@ -232,11 +237,17 @@ def main(tier="quick"):
     rep = Report(PROP, tier)
     known = F.load(PROP)
     work = []
+    macro_dirs = []
     for backend, coll in (("atlas", "Jets"), ("cms_aod", "Muons"), ("cms_miniaod", "Muons")):
         pkg = translate(f"ds.Select(lambda e: e.{coll}('A').Count())", backend)
         if not pkg.ok:
             raise RuntimeError("harness: cannot render package for " + backend)
         files = {n: t for n, t in pkg.files.items()}
+        macro_dir = build_macro(files)
+        if macro_dir is not None:
+            macro_dirs.append(macro_dir)
+            if not (macro_dir / "macro_bin").exists():
+                rep.notes.append(f"{backend}: copy_root_tree.C does not compile against the stand-in ROOT classes: " + (macro_dir / "compile.log").read_text()[-300:])
         hists = []
         maxh = 1 if tier == "quick" else 2
         for n in range(0, maxh + 1):
@@ -250,8 +261,13 @@ def main(tier="quick"):
         for h in (["c", "r-d-o", "r-d2-o2", "r-d-o", "r-d2-o2", "r"], ["full", "r", "r", "r-d-o", "r", "r-d2-o2", "r"], ["full", "full", "r", "c", "r", "r", "r"]):
             hists.append(h)
         for h in hists:
-            work.append((backend, files, h, "last" if tier == "quick" else "any"))
-    res = par.pmap(explore, work)
+            work.append((backend, files, h, "last" if tier == "quick" else "any", str(macro_dir) if macro_dir else None))
+    try:
+        res = par.pmap(explore, work)
+    finally:
+        import shutil
+        for d in macro_dirs:
+            shutil.rmtree(d, ignore_errors=True)
     stats = Counter()
     outcomes = set()
     nb = 0
@@ -274,7 +290,8 @@ def main(tier="quick"):
     rep.sample({"history": ["c", "r-d-o"], "argv": [INV["c"], INV["r-d-o"]], "faults": "every external command index of the last invocation, every sourced setup file"})
     rep.assumptions += ["a failing tool fails before producing its effect (no partial writes); one fault per history",
                         "faults of `dirname` (the script locating itself) are not demanded to abort the script: not one of the steps the property lists",
-                        "bash and coreutils are trusted; cmake/make/python/scram/cmsRun/root/mkedanlzr/sudo are stubs with a minimal faithful effect",
+                        "bash and coreutils are trusted; cmake/make/scram/mkedanlzr/sudo are stubs with a minimal faithful effect",
+                        "the job step executes the rendered job configuration (ATestRun_eljob.py / analyzer_cfg.py) unmodified against stand-in EventLoop / cmsRun frameworks, and the conversion step runs the rendered copy_root_tree.C compiled against stand-in ROOT classes (mc/standin/jobfw): a ROOT file is a text file of trees, each carrying the run's nonce and the inputs the job read",
                         "EventLoop refuses an existing submission directory (stub python does too)"]
     if not namespaces_available():
         rep.assumptions.append("mount namespaces unavailable: ran a copy of the script with /results, /home/atlas, /opt/cms, /xaod_calibration_cache prefixed by the scratch root")
